@@ -110,7 +110,7 @@ def compare(F, paths, expected, allow_flush_at=None):
 
 def unit_forms(chk, F, tier='quick'):
     cfg = F.cfg
-    model, spec, P = scanners.product(F, 'polling')
+    model, spec, P, allp = scanners.product(F, 'polling')
     n = 0
     end_tags = set()
     for key in P.order:
@@ -118,7 +118,7 @@ def unit_forms(chk, F, tier='quick'):
         tag = ss[0]
         shape = A.spec_shape(ss)
         base = dict(cons0)
-        base.update({CH: VS(0, 15), POLLCH: VS(0, 15), X: VS(0, 127), Y: VS(0, 127)})
+        base.update({CH: VS.one(0), POLLCH: VS.one(0), X: VS(0, 127), Y: VS(0, 127)})
         for v in V:
             base[v] = VS(0, 127)
         variants = []
